@@ -12,9 +12,15 @@ if [ ! -d "$ROOT/wt" ]; then git -C /repo worktree add -q --detach "$ROOT/wt" HE
 git -C "$ROOT/wt" checkout -q --detach "$(git -C /repo rev-parse HEAD)" && git -C "$ROOT/wt" checkout -q -- . && git -C "$ROOT/wt" clean -fdq -e target
 if [ "$PATCH" != "/dev/null" ]; then git -C "$ROOT/wt" apply "$PATCH" || { echo "HARNESS-ERROR: patch does not apply"; exit 2; }; fi
 rsync -a --delete --exclude target --exclude '.build-log.*' /verif/sim/ "$ROOT/sim/"
-sed -i "s#path = \"/repo/src/lib.rs\"#path = \"$ROOT/wt/src/lib.rs\"#" "$ROOT/sim/shadow/Cargo.toml"
 cp /verif/known_findings.json "$ROOT/root/" 2>/dev/null
+mkdir -p "$ROOT/sim/target"
+python3 /verif/tools/rewrite_src.py "$ROOT/wt/src" "$ROOT/sim/target/repo-src" >/dev/null || exit 2
 if ! (cd "$ROOT/sim" && CARGO_NET_OFFLINE=true CARGO_TARGET_DIR="$ROOT/target" cargo build --offline -p opwsim) >"$ROOT/build.log" 2>&1; then
-    echo "HARNESS-ERROR: build failed"; grep -E "^error" -A 8 "$ROOT/build.log" | head -40; exit 2
+    python3 /verif/tools/rewrite_src.py --plain "$ROOT/wt/src" "$ROOT/sim/target/repo-src" >/dev/null
+    if (cd "$ROOT/sim" && CARGO_NET_OFFLINE=true CARGO_TARGET_DIR="$ROOT/target" cargo build --offline -p opwsim) >"$ROOT/build.log" 2>&1; then
+        echo "NOTE: rewritten copy did not compile; running on a plain copy"
+    else
+        echo "HARNESS-ERROR: build failed"; grep -E "^error" -A 8 "$ROOT/build.log" | head -40; exit 2
+    fi
 fi
 VERIF_ROOT="$ROOT/root" VERIF_SEED="$SEED" OPWSIM_REPORT_FD=3 "$ROOT/target/debug/opwsim" "$CHECK" "$TIER" 3>&1 1>/dev/null
